@@ -85,7 +85,10 @@ def run_case(ctx, rng, idx):
         while h.num_edges() < target:
             e = tuple(rng.sample(labs[: n_ - 3], rng.choice([1, 2, 2, 3, 3, 4, 5])))
             h.add_edge(e, weight=rng.choice([0.5, 2, 2.5, 3, 7]))
-        h.add_edge((), weight=2.5, metadata={"empty": True})
+        # the empty hyperedge, reached the way a Hypergraph reaches it: a singleton whose only node is removed with keep_edges=True
+        # (kept as () with its weight and metadata, or dropped - section 2.3; the source is whatever is observed afterwards)
+        h.add_edge((10**6 + 7,), weight=2.5, metadata={"empty": True})
+        h.remove_node(10**6 + 7, keep_edges=True)
         trace = ["many-hyperedges"]
         cfg.uni_name = "wide"
         cfg.labels = list(labs)[:12] + [10**6, 10**6 + 1]
@@ -164,7 +167,23 @@ def run_case(ctx, rng, idx):
         pass
 
     # ---- copy: equal, independent both ways -------------------------------------------------
+    inc0 = None
+    if hasattr(h, "set_incidence_metadata") and S.edges:
+        # something attached to an incidence (hyperedge, node): part of what a copy must carry
+        k_ = next((k for k in S.edges if K.size(k) > 0), None)
+        if k_ is not None:
+            try:
+                e_ = lib_args(kind, k_)[0]
+                h.set_incidence_metadata(e_, sorted(K.nodes(k_), key=repr)[0], {"role": ["chair", {"since": 3}]})
+                inc0 = copy.deepcopy(dict(h.get_all_incidences_metadata()))
+            except Exception as ex:
+                ctx.note("incidence-metadata-not-settable:" + type(ex).__name__)
     c = h.copy()
+    if inc0 is not None:
+        inc1 = call(lambda: dict(c.get_all_incidences_metadata()))
+        ctx.check("C05:copy", inc1 == inc0, "C05:copy:incidence-metadata-differs", lambda: wit((inc0, repr(inc1)[:300])))
+        inc2 = call(lambda: dict(c.copy().get_all_incidences_metadata()))
+        ctx.check("C05:copy", inc2 == inc0, "C05:copy:incidence-metadata-differs(copy of the copy)", lambda: wit((inc0, repr(inc2)[:300])))
     Sc = observe(c)
     ctx.check("C05:copy", Sc.same(S, with_hgmd=True) and type(c) is type(h), "C05:copy:differs:" + ",".join(Sc.diff(S, True)), wit)
     ctx.check("C05:copy", hash_hypergraph(c) == hash0, "C05:copy:hash-differs", wit)
